@@ -9,15 +9,19 @@
 
    FULL statement aimed at (DESIGN section 6), NOT yet proved:
      C03_fp_read_spec : supported l -> fp_read false (enc_file l t) = Some (canon t)
-   where fp_read is the impl model of core.read_col / read_data_page / read_data_page_v2 (Impl/RPages.v).
-   Missing: the impl model of the reader's page logic and its refinement to the specification decoder;
-   until then the reader is tied to the specification only by the per-run oracle (harness/props/C03.py:
-   fastparquet's result = table_of on every generated file).                                        *)
+   where fp_read is the impl model of core.read_col / read_data_page / read_data_page_v2.
+   Proved part: the impl model of the v1 page reader (Impl/RPages.v: read_data_page + the page part of
+   read_col) reads every v1 data page of every layout back to the page's denotation
+   (C03_fp_read_page_v1_spec_partial).  Missing: the v2 page reader (read_data_page_v2 with its in-place
+   fast paths), the page loop of read_col over a chunk, DELTA_BINARY_PACKED, and the native decoders
+   themselves (represented by the specification decoders; C11 proves that for widths <= 24).  For the
+   missing parts the reader is tied to the specification by the per-run oracle only
+   (harness/props/C03.py: fastparquet's result = table_of on every generated file).                *)
 From Coq Require Import String.
 From Coq Require Import NArith ZArith List Bool Arith.
 From Pq Require Import Base.Bytes Base.ListX Codec.Hybrid Thrift.Compact Format.Phys Format.Meta Format.Page
   Format.ChunkLayout Format.File Format.Enc
-  Proofs.HybridProofs Proofs.FormatCodecProofs Proofs.FormatPageProofs Proofs.FormatChunkProofs.
+  Impl.RPages Proofs.HybridProofs Proofs.FormatCodecProofs Proofs.FormatPageProofs Proofs.FormatChunkProofs Proofs.RPagesProofs.
 Import ListNotations.
 Open Scope list_scope.
 Open Scope N_scope.
@@ -46,6 +50,31 @@ Theorem C03_spec_chunk_roundtrip_partial :
          nulls + fold_right N.add 0 (map content_nulls contents)).
 Proof. exact scan_pages_roundtrip. Qed.
 Print Assumptions C03_spec_chunk_roundtrip_partial.
+
+(* impl model of fastparquet's v1 page reader (foreign files: selfmade = false) on the raw bytes of
+   any v1 data page the specification encoder can write - optional or required, PLAIN for every
+   physical type, dictionary indices of any width 0..32 in any mixture of RLE and bit-packed runs,
+   RLE booleans, any trailing bytes - returns exactly the cells the page denotes.
+   (Full statement: the same for fp_read over whole files, see the header of this file.) *)
+Theorem C03_fp_read_page_v1_spec_partial : forall cd dict p cs,
+  page_wf cd p -> store_ok_for_reader cd (lp_store p) -> page_cells cd dict p = Some cs ->
+  rd_col_page false cd dict (v1_header p) (v1_raw cd p) = ROk cs.
+Proof. exact rd_col_page_v1_spec. Qed.
+Print Assumptions C03_fp_read_page_v1_spec_partial.
+
+(* why the `selfmade` guard of the raw-codes shortcut matters (appendix B mutant "drop `and selfmade`"):
+   with the shortcut taken on a foreign page of index width 8 the model does not return the denotation *)
+Definition ex_sm_cd : coldesc := {| cd_type := INT32; cd_tlen := 0; cd_maxdef := 0 |}.
+Definition ex_sm_page : lpage :=
+  {| lp_v2 := false; lp_nvals := 3; lp_def := []; lp_store := SDict 8%Z 8 [RLE 3 1]; lp_iscomp := None; lp_trail := [] |}.
+Theorem C03_selfmade_shortcut_on_foreign_page_refuted :
+  page_cells ex_sm_cd (Some [VNum 10; VNum 20]) ex_sm_page = Some [Some (VNum 20); Some (VNum 20); Some (VNum 20)]
+  /\ rd_col_page false ex_sm_cd (Some [VNum 10; VNum 20]) (v1_header ex_sm_page) (v1_raw ex_sm_cd ex_sm_page)
+     = ROk [Some (VNum 20); Some (VNum 20); Some (VNum 20)]
+  /\ rd_col_page true ex_sm_cd (Some [VNum 10; VNum 20]) (v1_header ex_sm_page) (v1_raw ex_sm_cd ex_sm_page)
+     <> ROk [Some (VNum 20); Some (VNum 20); Some (VNum 20)].
+Proof. repeat split; try (vm_compute; reflexivity). vm_compute. discriminate. Qed.
+Print Assumptions C03_selfmade_shortcut_on_foreign_page_refuted.
 
 (* the specification decoder never returns values for the value encodings outside the model: it says
    "unsupported" (DELTA_LENGTH_BYTE_ARRAY 6, DELTA_BYTE_ARRAY 7, BYTE_STREAM_SPLIT 9) whatever the bytes *)
